@@ -190,6 +190,13 @@ def digest(obj):
     return hashlib.sha1(json.dumps(obj, sort_keys=True, default=repr).encode()).hexdigest()[:16]
 
 
+# the word "clear" as an application gets it from a file, a message or another process: equal to
+# the literal but a different object (an identity test against a module constant misses it)
+RUNTIME_CLEAR = "".join(("cl", "ear"))
+_LITERAL_CLEAR = "clear"
+assert RUNTIME_CLEAR == _LITERAL_CLEAR and RUNTIME_CLEAR is not _LITERAL_CLEAR
+
+
 def rejected(func, *args, **kwargs):
     """Make a call that the library must reject (malformed arguments) and ignore the outcome.
     What a rejected call leaves behind - a flag, a half-written cache entry, a changed global -
